@@ -308,14 +308,18 @@ class Ctx:
 
 # ------------------------------------------------------------------- Go harness
 
-def harness_dir(ctx):
-    """A private copy of /verif/harness whose go.mod points at the tree under test."""
+def harness_dir(ctx, extra_replace=None, name="harness"):
+    """A private copy of /verif/harness whose go.mod points at the tree under test.
+    extra_replace: {module path: directory} appended as replace directives (only the T2 build uses it: an instrumented
+    copy of golang.org/x/sync, which lives in the module cache and cannot be overlaid); name: directory under ctx.work."""
     src = VERIF / "harness"
-    dst = ctx.work / "harness"
+    dst = ctx.work / name
     if dst.exists():
         shutil.rmtree(dst)
     shutil.copytree(src, dst, ignore=shutil.ignore_patterns("*.test", "bin"))
     gomod = (src / "go.mod.tmpl").read_text().replace("@REPO@", str(REPO))
+    for mod, path in sorted((extra_replace or {}).items()):
+        gomod += "\nreplace %s => %s\n" % (mod, path)
     (dst / "go.mod").write_text(gomod)
     try:
         shutil.copy(REPO / "go.sum", dst / "go.sum")
